@@ -24,6 +24,7 @@ THEOREMS = [(M, "NQ.C05." + n) for n in [
     ("NetqasmVerif.Lemmas.SdkQSafe", "NQ.Bridge.unit_free_after")] + [
     ("NetqasmVerif.Props.C05Chain2", "NQ.C05." + n) for n in [
         "flush_on_exec", "emit_correct_end_to_end_closed", "scratch_dead_across_flushes", "program_on_exec",
+        "program_on_exec_views",
         "nonvacuous_program_on_exec"]]
 TRANSLATORS = []
 LEVEL_TEXT = (
